@@ -225,7 +225,30 @@ def run_impl(thunk):
     return "ok", list(r.cells)
 
 
+def run_twice(t, thunk):
+    """Family H (state between calls): the same call twice on the same receiver gives strictly identical
+    results and leaves the receiver unchanged.  -> (status, result, failures)"""
+    from harness.coqterm import canon_tri
+
+    before = canon_tri(t.cells, ordered=True)
+    st1, r1 = run_impl(thunk)
+    mid = canon_tri(t.cells, ordered=True)
+    st2, r2 = run_impl(thunk)
+    fails = []
+    if before != mid or mid != canon_tri(t.cells, ordered=True):
+        fails.append("the call changed the triangle it was called on")
+    if st1 != st2 or (st1 == "err" and type(r1) is not type(r2)) or \
+            (st1 == "ok" and canon_tri(r1, ordered=False) != canon_tri(r2, ordered=False)):
+        fails.append("the same call twice on the same triangle gave different results")
+    return st1, r1, fails
+
+
 # ------------------------------------------------------------------------------------------ value algebra (oracle side)
+def pyval(v):
+    """Python number of a (NumPy) scalar."""
+    return v.item() if isinstance(v, np.generic) else v
+
+
 def vkind(v):
     if v is None:
         return "none"
@@ -246,10 +269,10 @@ def exact_total(values):
             n = len(v)
     is_f = any(vkind(v) in ("float", "arr_float") for v in vals)
     if n is None:
-        return ("float" if is_f else "int", sum((Fraction(v) for v in vals), Fraction(0)))
+        return ("float" if is_f else "int", sum((Fraction(pyval(v)) for v in vals), Fraction(0)))
     tot = [Fraction(0)] * n
     for v in vals:
-        xs = v.tolist() if isinstance(v, np.ndarray) else [v] * n
+        xs = v.tolist() if isinstance(v, np.ndarray) else [pyval(v)] * n
         tot = [a + Fraction(x) for a, x in zip(tot, xs)]
     return ("arr_float" if is_f else "arr_int", tuple(tot))
 
@@ -259,7 +282,7 @@ def value_as_exact(v):
         return ("none", None)
     if isinstance(v, np.ndarray):
         return (vkind(v), tuple(Fraction(x) for x in v.tolist()))
-    return (vkind(v), Fraction(v))
+    return (vkind(v), Fraction(pyval(v)))
 
 
 def group_is_clean(values):
@@ -355,6 +378,43 @@ def meta_matches(m, exp):
 
 
 # ------------------------------------------------------------------------------------------ summarize oracle
+def _eqnorm(v):
+    """Value normalised so that tuple equality is Python's == on metadata values (7 == 7.0 == True is 1)."""
+    if v is None:
+        return ("none",)
+    if isinstance(v, (bool, int, float)):
+        return ("num", Fraction(v))
+    if isinstance(v, datetime.date):
+        return ("date", iso(v))
+    return (type(v).__name__, v)
+
+
+def meta_key(m):
+    """Identity of a slice, independent of Metadata.__hash__/__eq__: attribute-wise ==, detail dicts as
+    key -> value maps regardless of insertion order."""
+    return (m.risk_basis, m.country, m.currency, m.reinsurance_basis, m.loss_definition, _eqnorm(m.per_occurrence_limit),
+            tuple(sorted((k, _eqnorm(v)) for k, v in m.details.items())),
+            tuple(sorted((k, _eqnorm(v)) for k, v in m.loss_details.items())))
+
+
+def respell(m, extra=None):
+    """(m1, m2): two EQUAL Metadata objects spelled differently -- detail keys inserted in opposite
+    order and an integral number once as int, once as float."""
+    from bermuda import Metadata
+
+    d = {**m.details, **(extra if extra is not None else {"cov2": "BI", "st2": "NY", "lim2": 7})}
+    ld = dict(m.loss_details)
+
+    def flip(x):
+        return {k: (float(v) if type(v) is int else int(v) if type(v) is bool else v) for k, v in reversed(list(x.items()))}
+    kw = dict(risk_basis=m.risk_basis, country=m.country, currency=m.currency, reinsurance_basis=m.reinsurance_basis,
+              loss_definition=m.loss_definition)
+    pol = m.per_occurrence_limit
+    pol2 = float(pol) if type(pol) is int else int(pol) if (type(pol) is float and pol.is_integer()) else pol
+    return (Metadata(details=d, loss_details=ld, per_occurrence_limit=pol, **kw),
+            Metadata(details=flip(d), loss_details=flip(ld), per_occurrence_limit=pol2, **kw))
+
+
 def coord(c, inc):
     return (iso(c.period_start), iso(c.period_end), iso(c.evaluation_date), iso(c.prev_evaluation_date) if inc else None)
 
@@ -568,6 +628,7 @@ class SummGen(Gen):
         cells = []
         prem_store = {}
         flavours = set()
+        respelled = set()
         for si, m in enumerate(ms):
             if r.random() < 0.2:
                 rows_s, _ = self.coords(layout, None, r.randint(1, 3), r.randint(1, 3))
@@ -585,6 +646,8 @@ class SummGen(Gen):
                 kinds = {f: (vk if f in tied else r.choice(["int", "float", "arr_int", "arr_float"])) for f in fields}
                 if r.random() < 0.3:
                     n_samples = r.choice([2, 3])
+            spell = respell(m) if r.random() < 0.15 else (m, m)
+            n_in_slice = 0
             own_cadence = kind != "layers" and si > 0 and r.random() < 0.4
             # (cumulative cells only: IncrementalCell compares evaluation_date with prev_evaluation_date as given
             #  and stores prev_evaluation_date unnormalised, so mixed representations do not construct)
@@ -602,11 +665,23 @@ class SummGen(Gen):
                                 vals[f] = prem_store.setdefault((ps, e, f), vals[f])
                     if r.random() < 0.04:
                         vals[r.choice(sf)] = None
+                    if r.random() < 0.05:        # falsy but valid: zero of the field's kind
+                        f0 = r.choice(sf)
+                        if vals[f0] is not None and f0 not in RATIO and f0 not in {w for w, _ in RATIO.values()}:
+                            vals[f0] = vals[f0] * 0
+                    mm = spell[n_in_slice % 2]
+                    n_in_slice += 1
+                    if spell[0] is not m:
+                        respelled.add(si)
                     if basis == "inc":
-                        cells.append(mk_cell(IncrementalCell, flavour, ps, pe, e, vals, m, prev=prev))
+                        cells.append(mk_cell(IncrementalCell, flavour, ps, pe, e, vals, mm, prev=prev))
                         prev = e
                     else:
-                        cells.append(mk_cell(CumulativeCell, flavour, ps, pe, e, vals, m))
+                        cells.append(mk_cell(CumulativeCell, flavour, ps, pe, e, vals, mm))
+        if basis == "cum" and cells and r.random() < 0.06:      # restated cells: same slice and coordinates, other values
+            for c in r.sample(cells, min(len(cells), r.randint(1, 3))):
+                v2 = {k: (v if (v is None or k in RATIO) else v + v) for k, v in c.values.items()}
+                cells.append(mk_cell(type(c), "date", c.period_start, c.period_end, c.evaluation_date, v2, c.metadata))
         if kind == "unregistered" and cells:
             bad = r.choice(["loss_ratio", "foo", "paid_los", "Ünï", "premium"])
             for c in r.sample(cells, r.randint(1, len(cells))):
@@ -620,7 +695,7 @@ class SummGen(Gen):
                     c.values[up.lower()] = 4
         incm = basis == "inc" and len({(c.period_start, c.period_end, c.evaluation_date, c.prev_evaluation_date) for c in cells}) \
             > len({(c.period_start, c.period_end, c.evaluation_date) for c in cells})
-        info = {"kind": kind, "basis": basis, "mixed_prev": incm, "date_flavours": sorted(flavours), "n_slices": len(ms), "slice_diff": slice_diff, "values": vk if kind != "mixedkind" else "mixed",
+        info = {"kind": kind, "basis": basis, "mixed_prev": incm, "date_flavours": sorted(flavours), "respelled_slices": len(respelled), "n_slices": len(ms), "slice_diff": slice_diff, "values": vk if kind != "mixedkind" else "mixed",
                 "layout": layout, "n_cells": len(cells), "fields": fields, "prem": prem}
         return cells, prem, info
 
